@@ -33,7 +33,7 @@ def signature(mm):
 def show(conn, text):
     try:
         cur = conn.execute(text)
-        return proto.show_result(cur.description, cur.fetchall(), proto.Opaque())
+        return proto.show_result(cur.description, cur.fetchall(), proto.Content())
     except Exception as exc:  # noqa: BLE001
         return 'EXC:%s:%s' % (type(exc).__name__, exc)
 
